@@ -115,6 +115,60 @@ func (t *Term) write(sb *strings.Builder) {
 	sb.WriteByte(')')
 }
 
+// Canon renders the term with bound variables renamed in binding order, so
+// that alpha-equivalent formulas (the same predicate expanded twice) compare
+// equal as strings.
+func (t *Term) Canon() string {
+	var sb strings.Builder
+	n := 0
+	t.canon(&sb, map[string]string{}, &n)
+	return sb.String()
+}
+
+func (t *Term) canon(sb *strings.Builder, ren map[string]string, n *int) {
+	switch t.Op {
+	case "forall", "exists":
+		if !t.IsSym {
+			sb.WriteString("(" + t.Op + " (")
+			saved := map[string]string{}
+			for _, b := range t.Bound {
+				if old, ok := ren[b.Name]; ok {
+					saved[b.Name] = old
+				}
+				ren[b.Name] = fmt.Sprintf("b%d", *n)
+				*n++
+				sb.WriteString("(" + ren[b.Name] + " " + string(b.S) + ")")
+			}
+			sb.WriteString(") ")
+			t.Args[0].canon(sb, ren, n)
+			sb.WriteString(")")
+			for _, b := range t.Bound {
+				if old, ok := saved[b.Name]; ok {
+					ren[b.Name] = old
+				} else {
+					delete(ren, b.Name)
+				}
+			}
+			return
+		}
+	}
+	if len(t.Args) == 0 {
+		if r, ok := ren[t.Op]; ok && !t.IsSym {
+			sb.WriteString(r)
+		} else {
+			sb.WriteString(t.Op)
+		}
+		return
+	}
+	sb.WriteByte('(')
+	sb.WriteString(t.Op)
+	for _, a := range t.Args {
+		sb.WriteByte(' ')
+		a.canon(sb, ren, n)
+	}
+	sb.WriteByte(')')
+}
+
 // ---------------------------------------------------------------------------
 // constructors
 
